@@ -16,6 +16,7 @@ const (
 	verifSend                       // about to send a token (may block when full)
 	verifRecv                       // about to receive a token (may block when empty)
 	verifSpawn                      // about to start a helper goroutine
+	verifEnd                        // the calling helper goroutine is about to end
 )
 
 // Exported copies for the monitor.
@@ -26,6 +27,7 @@ const (
 	VerifSend      = verifSend
 	VerifRecv      = verifRecv
 	VerifSpawn     = verifSpawn
+	VerifEnd       = verifEnd
 )
 
 var verifHook ato.Pointer[func(kind uint8, queue any)]
@@ -44,6 +46,12 @@ func verifPoint(kind uint8, queue any) {
 	if hook != nil {
 		(*hook)(kind, queue)
 	}
+}
+
+// VerifNotify lets the other packages of this module report their own spawn and
+// end points (the scanner goroutine of the CDCN parser) to the same monitor.
+func VerifNotify(kind uint8, queue any) {
+	verifPoint(kind, queue)
 }
 
 // VerifTokens returns the current token channel, read under the queue's own
